@@ -221,7 +221,8 @@ P["C10"] = dict(
     claimed=True,
     technique="static analysis: set-of-states typestate dataflow per loop iteration (written none/value/NaN x "
               "counted 0/1/2+), and element-wise value-graph comparison of written tuples with the tuple read",
-    decides=["R-STACK-COUNT: stack_fwd / stack_inv never return the depth of the stack as the number of successes",
+    decides=["R-COUNT-SPATIAL: the NaN test guarding the success count of cart_fwd / cart_inv looks at the three spatial results only (the time element is passed through and does not decide)",
+             "R-STACK-COUNT: stack_fwd / stack_inv never return the depth of the stack as the number of successes",
              "R-NO-INPUT-CLAMP: no clamp / min / max is applied to an input coordinate element in the per-tuple loops of the plane projections",
              "R-GRID-MISS-IS-NAN: no result of grids_at is given a default (unwrap_or ...) in the grid operators",
              "R-LIMIT-ON-PLANE: the transverse Mercator strip limit is tested, forward, on the value that is scaled into the written easting and, inverse, on an arithmetic function of the input",
@@ -467,7 +468,8 @@ P["C20"] = dict(
     claimed=True,
     technique="static analysis of bin kp's MIR: per-iteration typestate of the output loop, dominance of emptiness and "
               "length guards, boolean abstract interpretation of the direction logic, error-propagation provenance",
-    decides=["R-KP-SKIP-AFTER-CUT: the line loop tests the token list for emptiness after the comment was cut off (comment-only lines are skipped)",
+    decides=["R-KP-ROUNDTRIP/all-tuples: the loop forming the roundtrip residuals is not bounded by the number of successful transformations",
+             "R-KP-SKIP-AFTER-CUT: the line loop tests the token list for emptiness after the comment was cut off (comment-only lines are skipped)",
              "R-KP-ERRORS/lines: the io::Result items of the line iterator reach a `?`; the iterator is not wrapped in map_while / flatten / filter_map",
              "R-KP-DIMENSION/width: every call of transform() receives the running maximum of the input widths",
              "R-KP-NO-PREROUND: transform() does no rounding arithmetic of its own on the results",
